@@ -290,7 +290,8 @@ def finish(res, tier, seed, level, rule, evaluations, distinct, coverage_extra=N
             n = matched.get(key, [k, 0])[1]
             lines.append("KNOWN-FINDING: property=%s %s (observed %d times in this run)" % (prop, k.get("what", key), n))
     replay_paths = []
-    for sig, vs in unknown:
+    MAXW = 40      # witnesses written per run; a broken tree can produce thousands of signatures
+    for sig, vs in unknown[:MAXW]:
         v = vs[0]
         h = hashlib.sha1(sig.encode()).hexdigest()[:12]
         path = os.path.join(REPLAY, prop, "%s.json" % h)
@@ -300,6 +301,8 @@ def finish(res, tier, seed, level, rule, evaluations, distinct, coverage_extra=N
         replay_paths.append(path)
         lines.append("VIOLATION property=%s replay=%s" % (prop, path))
         log("violation %s: %s" % (sig, v.get("what")))
+    if len(unknown) > MAXW:
+        lines.append("NOTE: %d further violation signatures not written out (see evidence violation_signatures)" % (len(unknown) - MAXW))
     verdict = "held"
     code = 0
     if unknown:
@@ -317,7 +320,7 @@ def finish(res, tier, seed, level, rule, evaluations, distinct, coverage_extra=N
         "counters": {k: res.counters[k] for k in sorted(res.counters)},
         "sets": {k: (sorted(v)[:40] if len(v) > 40 else sorted(v)) for k, v in sorted(res.sets.items())},
         "set_sizes": {k: len(v) for k, v in sorted(res.sets.items())},
-        "violation_signatures": sorted(by_sig.keys())[:50],
+        "violation_signatures": sorted(by_sig.keys())[:200], "violation_signature_count": len(by_sig),
         "known_findings_matched": {str(k): n for k, (kk, n) in matched.items()},
         "other_property_observations": sorted(set(v["sig"] for v in other))[:30],
         "harness_crashes": res.crashes,
